@@ -299,12 +299,22 @@ func (x *Ctx) RunAll(p *Pool, cases []*proto.Case) {
 			// A watchdog expiry is only believed if it happens again when the case runs alone in a
 			// fresh worker: on a heavily loaded machine a starved worker also shows "no progress".
 			// A hang that is a property of the code reproduces; one that does not is inconclusive.
-			single := &Pool{Bin: p.Bin, N: 1, Scratch: filepath.Join(p.Scratch, "retry-"+c.ID), ExtraEnv: p.ExtraEnv, PathPrefix: p.PathPrefix}
+			// It is re-run twice, each time alone in a fresh worker and with twice the time; the hang
+			// verdict stands only if both re-runs expire as well.
+			slow := *c
+			slow.TimeoutMs = 2 * c.TimeoutMs
 			var again *proto.Result
-			single.Run([]*proto.Case{c}, func(_ *proto.Case, r2 *proto.Result) { again = r2 })
+			for attempt := 0; attempt < 2; attempt++ {
+				single := &Pool{Bin: p.Bin, N: 1, Scratch: filepath.Join(p.Scratch, fmt.Sprintf("retry%d-%s", attempt, c.ID)), ExtraEnv: p.ExtraEnv, PathPrefix: p.PathPrefix}
+				again = nil
+				single.Run([]*proto.Case{&slow}, func(_ *proto.Case, r2 *proto.Result) { again = r2 })
+				if again == nil || !again.TimedOut {
+					break
+				}
+			}
 			if again != nil {
 				if !again.TimedOut {
-					x.Inconclusive("a case exceeded its watchdog once and finished when it was re-run alone")
+					x.Inconclusive("a case exceeded its watchdog and finished when it was re-run alone")
 					x.Count("watchdog_expiries_not_reproduced", 1)
 				}
 				r = again // also when it hung again: the fresh worker's goroutine dump has no leftovers of earlier cases
